@@ -86,6 +86,9 @@ where
         1 => {
             let start = (w.start % 32) as usize;
             let count = 1 + (w.count as usize % (32 - start));
+            // a quarter of the cases: as many work items as requested threads allow (one bit per worker, more workers than
+            // hardware threads), the corner where a worker-count cap or a wrong chunk size drops the trailing bits
+            let (start, count) = if w.seed & 12 == 12 && threads > 16 { (32 - threads.min(32), threads.min(32)) } else { (start, count) };
             let enc = EncryptionLayout::new_from_default_sigma(glwe_infos).unwrap();
             let mut ct: FheUint<Vec<u8>, u32> = FheUint::alloc_from_infos(&glwe_infos);
             let mut xe = Source::new(seed32(w.seed, 1));
